@@ -136,11 +136,12 @@ def main():
     log = sys.stderr
     ctx = Ctx(tier, seed, log)
     mod = importlib.import_module("p_" + pid.lower())
-    ev_path = os.path.join(VERIF, "evidence", pid + ".json")
-    os.makedirs(os.path.join(VERIF, "evidence", "replay"), exist_ok=True)
-    for fn in os.listdir(os.path.join(VERIF, "evidence", "replay")):
+    evdir = os.environ.get("VERIF_EVIDENCE_DIR") or os.path.join(VERIF, "evidence")
+    ev_path = os.path.join(evdir, pid + ".json")
+    os.makedirs(os.path.join(evdir, "replay"), exist_ok=True)
+    for fn in os.listdir(os.path.join(evdir, "replay")):
         if fn.startswith(pid + "-"):
-            os.remove(os.path.join(VERIF, "evidence", "replay", fn))
+            os.remove(os.path.join(evdir, "replay", fn))
     try:
         res = mod.run(ctx)
     except extract.BuildFailed as e:
@@ -169,7 +170,7 @@ def main():
     replay_files = []
     for f in viol:
         h = hashlib.sha256(f.key().encode()).hexdigest()[:12]
-        rp = os.path.join(VERIF, "evidence", "replay", "%s-%s.json" % (pid, h))
+        rp = os.path.join(evdir, "replay", "%s-%s.json" % (pid, h))
         json.dump({"property": pid, "key": f.key(), "rule": f.rule, "body": f.body, "what": f.what,
                    "at": f.at, "detail": f.detail, "tier": tier,
                    "how_to_replay": "rules/check.py %s --tier %s  (re-extracts facts from the working tree and re-applies rule %s)" % (pid, tier, f.rule)},
